@@ -568,7 +568,8 @@ def minimize_lbfgsb(
                 mats = LBFGSB_MATRICES(n)
         else:
             # x update
-            x += steplength * d
+            # (projected: rounding may leave the box by one ulp)
+            np.clip(x + steplength * d, lb, ub, out=x)
 
             # new evaluation -> normally, the function has been updated in
             # the linesearch step
